@@ -11,8 +11,8 @@ OPN = ["PERM", "ADD", "UPDATE", "GET", "SUB", "RECV", "DROP", "PROVIDE", "PROVDO
        "CLEANUP", "SHUTDOWN", "TICK", "DUMP", "?15", "?16", "?17", "?18", "?19", "V1GET", "V1SET", "V2GET", "V2GETS",
        "V2PUB", "V2ACT", "V2BATCH", "V2META", "SDVGET", "SDVSET", "SDVUPD", "SDVREG", "SDVMETA", "V1SUB", "V2SUB"]
 V1SUB, V2SUB = 33, 34
-OPN += ["?%d" % k for k in range(len(OPN), 60)] + ["SPROV", "SPUB"]
-SPROV, SPUB = 60, 61
+OPN += ["?%d" % k for k in range(len(OPN), 60)] + ["SPROV", "SPUB", "V1STR", "SDVSTR"]
+SPROV, SPUB, V1STR, SDVSTR = 60, 61, 62, 63
 V1GET, V1SET, V2GET, V2GETS, V2PUB, V2ACT, V2BATCH, V2META, SDVGET, SDVSET, SDVUPD, SDVREG, SDVMETA = range(20, 33)
 
 PATHS = ["Vehicle.Speed", "Vehicle.SpeedLimit", "Vehicle.Speed2", "Vehicle.Cabin.Door.Row1.Left",
@@ -498,6 +498,82 @@ def stream_scenario(rng):
     return L
 
 
+def client_stream_scenario(rng):
+    """the two client-streaming write RPCs on the real server: kuksa.val.v1 StreamedUpdate and sdv Collector
+    StreamDatapoints.  Each principal keeps one stream open for the whole case and every operation is one request
+    message on it: batches with valid and invalid values, unknown paths / ids, elements without entry, targets for
+    sensors, duplicates, by principals with full, partial and no provide / actuate scope; the same batches also go
+    through the unary Set / UpdateDatapoints now and then; the state is dumped and read back after each"""
+    L = [[PERM, 0] + E.s(ALL_SCOPE), [PERM, 0] + E.s("provide:Vehicle.C.S0 provide:Vehicle.C.S1 actuate:Vehicle.C.A0 read"),
+         [PERM, 0] + E.s("read"), [PERM, 0] + E.s("provide actuate")]
+    n = rng.randrange(3, 6)
+    sigs = []
+    for i in range(n):
+        et = rng.choice([0, 0, 2, 2, 1])
+        t = rng.choice([4, 4, 1, 10, 11, 0, 9, 16, 2])
+        name = "Vehicle.C.%s%d" % ("A" if et == 2 else "S", i)
+        mn, mx, al = (None, None, None)
+        if t == 4 and rng.random() < 0.5:
+            mn, mx = E.val(E.I32, -5), E.val(E.I32, 50)
+        L.append([ADD, 0] + E.s(name) + [t, rng.randrange(3), et] + opt(mn) + opt(mx) + opt(al))
+        sigs.append((i, name, t, et))
+    L.append([DUMP])
+
+    def val(t, ok=True):
+        good = {4: lambda: E.val(E.I32, rng.choice([0, 1, 7, 49, 50, -5])), 1: lambda: E.val(E.BOOL, rng.random() < 0.5),
+                10: lambda: E.val(E.F32, V.F(float(rng.randrange(50)))), 11: lambda: E.val(E.F64, V.D(rng.random())),
+                0: lambda: E.val(E.STR, rng.choice(["", "a", "bc"])), 9: lambda: E.val(E.U64, rng.choice([0, 2**63, 2**64 - 1])),
+                16: lambda: E.val(E.I32A, [rng.randrange(9) for _ in range(rng.randrange(3))]),
+                2: lambda: E.val(E.I32, rng.choice([-128, 127, 5]))}[t]()
+        if ok:
+            return good
+        return rng.choice([E.val(E.STR, "x") if t != 0 else E.val(E.I32, 1), E.val(E.I64, 2**40), E.val(E.I32, 51 if t == 4 else 300),
+                           E.val(E.U64, 7) if t != 9 else E.val(E.I32, -1)])
+
+    def v1_updates():
+        k = rng.choice([1, 1, 2, 3, 4])
+        body = []
+        for _ in range(k):
+            c = rng.random()
+            if c < 0.08:
+                body += [0, rng.choice([1, 2, 3]), 0, 0]                     # no entry
+                continue
+            i, name, t, et = rng.choice(sigs)
+            path = name if c > 0.2 else rng.choice(["Vehicle.C.Nope", "Vehicle.C", ""])
+            fields = rng.choice([1, 1, 1, 2, 3, 0])
+            v = [1, 1] + val(t, rng.random() < 0.8) if rng.random() < 0.85 else rng.choice([[0], [1, 0]])
+            # a target: mostly on actuators, now and then on a sensor (refused by the handler itself)
+            want_t = rng.random() < (0.5 if et == 2 else 0.15)
+            tt = ([1, 1] + val(t, rng.random() < 0.8) if rng.random() < 0.85 else [1, 0]) if want_t else [0]
+            body += [1] + E.s(path) + [fields] + v + tt
+        return [k] + body
+
+    def sdv_updates():
+        ids = list(dict.fromkeys(rng.choice([s[0] for s in sigs] + [n + 2, -1]) for _ in range(rng.choice([1, 1, 2, 3]))))
+        body = []
+        for i in ids:
+            t = sigs[i][2] if 0 <= i < n else 4
+            body += [i] + ([1] + val(t, rng.random() < 0.8) if rng.random() < 0.9 else [0])
+        return [len(ids)] + body
+
+    for _ in range(rng.randrange(8, 18)):
+        c = rng.random()
+        p = rng.choice([0, 0, 1, 1, 2, 3])
+        if c < 0.45:
+            L.append([V1STR, p] + v1_updates())
+        elif c < 0.8:
+            L.append([SDVSTR, p] + sdv_updates())
+        elif c < 0.9:
+            L.append([V1SET, p] + v1_updates())
+        else:
+            L.append([SDVUPD, p] + sdv_updates())
+        L.append([DUMP])
+        if rng.random() < 0.5:
+            i = rng.choice(sigs)[0]
+            L.append([GET, rng.choice([0, 2]), i])
+    return L
+
+
 def gen_history(rng, weights, length=(8, 40), eager=False, **kw):
     g = Gen(rng, weights, **kw)
     g.setup()
@@ -523,7 +599,7 @@ def dec_opt(t, i):
 def parse_op(l):
     op = l[0]
     d = {"op": op, "name": OPN[op] if 0 <= op < len(OPN) else "?"}
-    if 20 <= op <= 34 or op in (60, 61):
+    if 20 <= op <= 34 or op in (60, 61, 62, 63):
         d["p"] = l[1] if len(l) > 1 else -1
         d["raw"] = l
     try:
@@ -643,7 +719,7 @@ def show_api(l):
         if op == V1GET:
             path, j = _str(l, 3)
             return "view=%d path=%r%s" % (l[2], path[:60], " fields-mask=%d" % l[j] if j < len(l) else "")
-        if op == V1SET:
+        if op in (V1SET, V1STR):
             out, i = [], 3
             for _ in range(l[2]):
                 if l[i] == 0:
@@ -693,7 +769,7 @@ def show_api(l):
                     v = E.show_val(vv)
                 out.append("%s=%s" % (x, v))
             return "[" + "; ".join(out) + "]"
-        if op == SDVUPD:
+        if op in (SDVUPD, SDVSTR):
             out, i = [], 3
             for _ in range(l[2]):
                 x = l[i]
@@ -976,7 +1052,9 @@ def normalize(d, o, byname, meta):
             ok = first == [0]
             res.append(({"name": "UPDATE", "op": UPDATE, "p": p, "ups": [{"id": i, "flags": 1, "dp": v}]},
                         [[0] if ok else [1, i, first[0]]]))
-        elif op == SDVUPD:
+        elif op in (SDVUPD, SDVSTR):
+            if first[0] != 0:
+                return []
             ups, i = [], 3
             for _ in range(l[2]):
                 sid = l[i]
@@ -987,6 +1065,49 @@ def normalize(d, o, byname, meta):
                 ups.append({"id": sid, "flags": 1, "dp": v})
             res.append(({"name": "UPDATE", "op": UPDATE, "p": p, "ups": ups}, [first[1:] if first[0] == 0 else [0]]))
             res[-1] = (res[-1][0], [[first[1]] + first[2:]] if first[0] == 0 and len(first) > 1 else [[0]])
+        elif op == V1STR:
+            # one message of kuksa.val.v1 StreamedUpdate: the elements the handler forwards are one core update;
+            # its own per-element errors (no entry, unknown path, target for a non-actuator) come first in the reply
+            if first[0] != 0 or len(first) < 2:
+                return []
+            ups, i, npre, own = [], 3, 0, {}
+            for _ in range(l[2]):
+                if l[i] == 0:
+                    name, i = None, i + 1
+                else:
+                    name, i = _str(l, i + 1)
+                fields = l[i]
+                v, i = _read_oov(l, i + 1)
+                t, i = _read_oov(l, i)
+                sid = byname.get(name) if name is not None else None
+                if sid is None or (t != "absent" and meta.get(sid, {}).get("etype") != 2):
+                    npre += 1
+                    if sid is not None:
+                        own[sid] = own.get(sid, 0) + 1
+                    continue
+                u = {"id": sid, "flags": 0}
+                if fields & 1 and v != "absent":
+                    u["flags"] |= 1
+                    u["dp"] = v
+                if fields & 2:
+                    if t == "absent":
+                        u["flags"] |= 4
+                    else:
+                        u["flags"] |= 2
+                        u["target"] = t
+                ups.append(u)
+            # the reply is sorted by key: negative keys are the handler's own; so is one (id, 400) for every
+            # element that carried a target for the non-actuator id - what remains are the core's errors
+            errs = []
+            for j in range(first[1]):
+                k, c = first[2 + 2 * j], first[3 + 2 * j]
+                if k >= 0 and c == 400 and own.get(k, 0) > 0:
+                    own[k] -= 1
+                    continue
+                if k >= 0:
+                    errs += [k, c]
+            res.append(({"name": "UPDATE", "op": UPDATE, "p": p, "ups": ups, "via": "v1 StreamedUpdate"},
+                        [[len(errs) // 2] + errs]))
         elif op in (V1SET, SDVSET):
             if first[0] != 0 or len(first) < 2:
                 return []
@@ -1517,8 +1638,8 @@ def c19_check(d, o, ctx):
                     if plain and "." in path and (path in ctx.byname or any(n.startswith(path + ".") for n in ctx.byname)):
                         fails.append("C19-class: V1GET of the existing %s %s reports %d" % (
                             "signal" if path in ctx.byname else "branch", path, first[0]))
-            elif op in (V1SET, SDVSET, SDVUPD) and first and first[0] == 0 and len(first) > 1:
-                tbl = V1_CLASS if op == V1SET else None
+            elif op in (V1SET, V1STR, SDVSET, SDVUPD, SDVSTR) and first and first[0] == 0 and len(first) > 1:
+                tbl = V1_CLASS if op in (V1SET, V1STR) else None
                 for j in range(first[1]):
                     k, c = first[2 + 2 * j], first[3 + 2 * j]
                     if tbl is not None:
